@@ -96,12 +96,15 @@ def _compile(stmts, symbolic, name):
 
 
 def _env(symbolic):
+    # module-level names of the real module (tables moved out of the function are still found)
+    import importlib
+    base = {k: v for k, v in vars(importlib.import_module('pytoniq_core.crypto.crc')).items() if not k.startswith('__')}
     if symbolic:
         from sx import hook
-        return {'__sx_getitem__': hook.sx_getitem, '__sx_fstr__': hook.sx_fstr, '__sx_enter__': lambda k: None,
+        return {**base, '__sx_getitem__': hook.sx_getitem, '__sx_fstr__': hook.sx_fstr, '__sx_enter__': lambda k: None,
                 'int': hook.SxInt, 'bytes': hook.SxBytes, 'len': hook.sx_len, 'range': hook.sx_range,
                 'isinstance': hook.sx_isinstance}
-    return {}
+    return base
 
 
 def run_prelude(sl, symbolic):
@@ -169,6 +172,18 @@ def h_whole(ctx, which, n, byteorder=None, twin=None):
     ctx.require(len(out) == SPEC[which]['out_len'], f'{which}: result length')
 
 
+def h_long(ctx, which, n, pos, k=1, byteorder=None):
+    """the whole real function on an n-byte input whose bytes pos..pos+k-1 are symbolic (concrete filler elsewhere):
+    length-dependent code paths (block loops, tails, fast paths) at every length boundary"""
+    from pytoniq_core.crypto import crc as crcmod
+    filler = bytes((i * 73 + 29) & 0xff for i in range(n))
+    data = filler[:pos] + ctx.bytes_('data', k) + filler[pos + k:]
+    fn = getattr(crcmod, which)
+    out = fn(data) if byteorder is None else fn(data, byteorder)
+    ctx.observe('crc', out)
+    ctx.require(out == ref_crc(which, data, byteorder), f'{which}: whole function on long inputs with a symbolic byte')
+
+
 def h_vectors(ctx, which):
     """published check values (validates the oracle itself): CRC of b'123456789'"""
     from pytoniq_core.crypto import crc as crcmod
@@ -195,6 +210,17 @@ def instances(tier, seed):
         yield 'h_whole', dict(which='crc32c', n=n, byteorder='big')
 
 
+    lens = [3, 4, 5, 8, 15, 16, 17, 32, 63, 64, 65, 128, 255, 256, 257, 1024] + ([31, 33, 127, 129, 512, 1000, 4096, 9878] if tier == 'thorough' else [])
+    for which in ('crc16', 'crc32c'):
+        for n in lens:
+            # crc32c: the 256-entry table indexed by a symbolic register byte nests once per remaining byte, so the
+            # symbolic byte sits at most two bytes before the end (crc16 affords any position)
+            for pos in (sorted({0 if n <= 65 else n - 40, n // 2 if n <= 128 else n - 9, n - 1}) if which == 'crc16' else sorted({n - 2, n - 1})):
+                yield 'h_long', dict(which=which, n=n, pos=pos)
+        yield 'h_long', dict(which=which, n=64, pos=62, k=2)
+        yield 'h_long', dict(which=which, n=68, pos=66, k=1, byteorder='big' if which == 'crc32c' else None)
+
+
 def twins(tier, seed):
     for which in ('crc16', 'crc32c'):
         if slice_fold(which) is not None:
@@ -207,6 +233,7 @@ BOUNDS = {
                                      'inputs of every length, provided the function has the fold shape (checked syntactically on each run; '
                                      'fold_shape_recognised below)',
     'technique A (h_whole)': 'crc16: 0..6 (quick) / 0..8 (thorough) fully symbolic bytes; crc32c: 0..1 / 0..2 bytes, both byte orders',
+    'technique A with filler (h_long)': 'inputs of 3..1024 (thorough ..9878) bytes at block-size boundaries, one symbolic byte at the first/middle/last position (crc32c: last or last but one; crc16: at most 64 bytes before the end), concrete filler elsewhere',
     'fold_shape_recognised': {w: slice_fold(w) is not None for w in SPEC},
 }
 OUTSIDE = ['if the fold shape is not recognised only the bounded whole-function claim is made']
